@@ -232,7 +232,7 @@ def main(tier, replay=None):
 
     settings = {"gas": True, "backtrace": False, "unsafe_panic": False, "opt": "default", "casm": True}
     projects = PROJECTS_QUICK if tier == "quick" else PROJECTS_THOROUGH
-    per_project = 40 if tier == "quick" else 450
+    per_project = 40 if tier == "quick" else 300
     reps16 = 1 if tier == "quick" else 5
     jobs, descs, resolved = [], {}, {}
     for p in projects:
@@ -240,10 +240,10 @@ def main(tier, replay=None):
         name = proj["name"]
         descs[name] = p
         resolved[name] = proj
-        n = per_project
+        n, reps = per_project, reps16
         if tier == "thorough" and name == "fib_all":
-            n = len(all_h) + 1  # every generated history on one small project
-        hs = select_histories(all_h, n, random.Random(rng.random()), reps16)
+            n, reps = len(all_h) + 1, 1  # every generated history (once) on one small project
+        hs = select_histories(all_h, n, random.Random(rng.random()), reps)
         lines = [dict(settings, k="settings"), proj]
         for i, h in enumerate(hs):
             lines.append(dict(h, k="hist", id=i, project=name))
